@@ -879,7 +879,9 @@ class FakeS3:
         try:
             idx = self._begin('complete_multipart_upload', kw)
             u['completed'] += 1
-            u['listed'] = kw['MultipartUpload']['Parts']
+            u['listed'] = [p for p in kw['MultipartUpload']['Parts'] if p is not None]
+            if len(u['listed']) != len(kw['MultipartUpload']['Parts']):
+                self.bad = 'CompleteMultipartUpload sent with a missing (None) part'
             blobs = []
             for p in u['listed']:
                 ent = u['parts'].get(p.get('PartNumber'))
